@@ -80,6 +80,10 @@ CLAIMED["C20"] = dict(engine="E1", technique="the real component is executed sev
     text="For every component of the stated catalogue and ALL values of two symbolic members at once: batch result equals the stack of single results, independent of position and of the other member, repeated calls agree, the input tensor is unchanged, and every alternative layout either agrees with per-block evaluation or is rejected with an exception.",
     note="Batches of two members; Berlekamp-Massey with a fixed second member; constraints compare per leading index only; PAPR / per-antenna constraints and iterative soft decoders are not in this catalogue (stated). Known finding: ReedMullerDecoder drops all but the first block of nested / multi-block inputs.",
     ref="DESIGN.md §4 C20")
+CLAIMED["C09"] = dict(engine="E1", technique="the real ChannelCodeModel assembled from real encoder / modulator / demodulator / decoder objects is executed on symbolic message bits (finite tables with torch-computed leaves; reals for displacements); channel bit flips are a symbolic pattern with a cardinality constraint re-labelled through the library's own modem; z3 decides 'exists message (and admissible channel action): output != message'",
+    text="All messages of one block, for each stated (code, decoder, modem, channel) combination: ideal channel, at most t flipped code bits per block, per-symbol displacement below d_min/2 per axis (BPSK, QPSK), and soft pipelines (Wagner, polar SC, min-sum LDPC) with the demodulator's LLR output at noise variances on a grid.",
+    note="One block per call; hard pipelines on 6 modem options x {syndrome, ML} + BM/syndrome on BPSK; the combination list is a bound. Interface mismatches between individually correct stages (label tables, LLR polarity) are what this check is for (self-test: swapped demodulator labels).",
+    ref="DESIGN.md §4 C09")
 NOT_YET = {}
 
 PENDING_REASON = "check not built yet in this round (planned: see DESIGN.md §8); not claimed until its check exists"
